@@ -17,7 +17,24 @@ pub enum Profile {
     All,
 }
 
-pub const KEYS: &[&str] = &["a", "b", "key", "x y", "é", "a\"b", "", "n1", "x1", "y_2", "p_1", "q7"];
+pub const KEYS: &[&str] = &[
+    "a",
+    "b",
+    "key",
+    "x y",
+    "é",
+    "a\"b",
+    "",
+    "n1",
+    "x1",
+    "y_2",
+    "p_1",
+    "q7",
+    // long names that agree on a long prefix
+    "customer_shipping_address_line_1",
+    "customer_shipping_address_line_2",
+    "customer_shipping_addr",
+];
 pub const PATTERNS: &[&str] = &["^[a-c]+$", "^[0-9]{2,3}$", "^a", "b$", "^(ab|cd)*$", "^[^x]*$", "^x[0-9]?$", "[0-9]"];
 
 fn scalar_value() -> impl Strategy<Value = Value> {
@@ -37,6 +54,9 @@ fn scalar_value() -> impl Strategy<Value = Value> {
         Just(json!("é😀")),
         Just(json!("line\nbreak")),
         Just(json!("tab\t\\")),
+        // long strings that agree on a long prefix
+        Just(json!("the quick brown fox jumps over the lazy dog")),
+        Just(json!("the quick brown fox jumps over the lazy cat")),
     ]
 }
 
@@ -66,17 +86,25 @@ fn int_schema(p: Profile) -> BoxedStrategy<Value> {
         any::<bool>(),
         mult,
         proptest::bool::weighted(0.15),
+        0u8..10,
     )
-        .prop_map(|(lo, span, exl, exh, mult, big)| {
+        .prop_map(|(lo, span, exl, exh, mult, big, both)| {
             let mut m = Map::new();
             m.insert("type".into(), json!("integer"));
             let scale = if big { 1000 } else { 1 };
             if let Some(lo) = lo {
                 m.insert(if exl { "exclusiveMinimum" } else { "minimum" }.into(), json!(lo * scale));
+                // both keywords on the lower side: equal, or the other one looser
+                if both == 0 || both == 1 {
+                    m.insert(if exl { "minimum" } else { "exclusiveMinimum" }.into(), json!(lo * scale - (both as i64)));
+                }
             }
             if let Some(sp) = span {
                 let hi = lo.unwrap_or(0) * scale + sp * scale + 3;
                 m.insert(if exh { "exclusiveMaximum" } else { "maximum" }.into(), json!(hi));
+                if both == 2 || both == 3 {
+                    m.insert(if exh { "maximum" } else { "exclusiveMaximum" }.into(), json!(hi + (both as i64 - 2)));
+                }
             }
             if let Some(mu) = mult {
                 m.insert("multipleOf".into(), mu);
@@ -103,19 +131,26 @@ fn num_schema(p: Profile) -> BoxedStrategy<Value> {
         Profile::Full => Just(None).boxed(),
         Profile::All => prop_oneof![6 => Just(None), 1 => Just(Some(json!(0.5))), 1 => Just(Some(json!(0.1))), 1 => Just(Some(json!(0.25))), 1 => Just(Some(json!(3)))].boxed(),
     };
-    (proptest::option::weighted(0.7, dec_value()), proptest::option::weighted(0.7, 0i64..3000), any::<bool>(), any::<bool>(), mult)
-        .prop_map(|(lo, span, exl, exh, mult)| {
+    (proptest::option::weighted(0.7, dec_value()), proptest::option::weighted(0.7, 0i64..3000), any::<bool>(), any::<bool>(), mult, 0u8..10)
+        .prop_map(|(lo, span, exl, exh, mult, both)| {
             let mut m = Map::new();
             m.insert("type".into(), json!("number"));
             let lo_f = lo.as_ref().and_then(|v| v.as_f64()).unwrap_or(0.0);
             if let Some(lo) = lo {
-                m.insert(if exl { "exclusiveMinimum" } else { "minimum" }.into(), lo);
+                m.insert(if exl { "exclusiveMinimum" } else { "minimum" }.into(), lo.clone());
+                // both keywords on one side with the same value
+                if both == 0 {
+                    m.insert(if exl { "minimum" } else { "exclusiveMinimum" }.into(), lo);
+                }
             }
             if let Some(sp) = span {
                 // hi = lo + sp/100 rendered with 2 digits
                 let hi = ((lo_f * 100.0).round() as i64) + sp + 1;
                 let txt = format!("{}{}.{:02}", if hi < 0 { "-" } else { "" }, hi.abs() / 100, hi.abs() % 100);
                 m.insert(if exh { "exclusiveMaximum" } else { "maximum" }.into(), serde_json::from_str(&txt).unwrap());
+                if both == 1 || both == 2 {
+                    m.insert(if exh { "maximum" } else { "exclusiveMaximum" }.into(), serde_json::from_str(&txt).unwrap());
+                }
             }
             if let Some(mu) = mult {
                 m.insert("multipleOf".into(), mu);
